@@ -28,7 +28,7 @@ P2Struct == {"remove.creator", "remove.main", "remove.fd", "remove.ifsc", "remov
              "recv.data_short", "recv.data_long", "recv.data_wrong"}
 P1Fields == {"hdr.volume", "hdr.file_count", "hdr.list_offset", "hdr.list_bytes", "hdr.data_offset", "hdr.data_bytes", "hdr.version",
              "ent.entry_bytes", "ent.status", "ent.file_bytes"}
-P1Struct == {"ent.hash", "ent.hash16k", "vol.data_short", "vol.data_long", "vol.number_swapped", "set.256_entries", "set.255_entries"}
+P1Struct == {"ent.hash", "ent.hash16k", "vol.data_short", "vol.data_long", "vol.number_swapped", "set.256_entries", "set.255_entries", "set.257_entries", "set.300_entries"}
 Where == {"index", "volume", "all"}
 
 \* value classes that make sense for a field (others are skipped)
